@@ -122,6 +122,13 @@ def emit_c(name, prog, out, depth=0):
                 lines.append(p + "PT_FAIL();")
             elif k == "fail_on":
                 lines.append(p + "PT_FAIL_ON(%s);" % c_cond(s[1]))
+            elif k == "if" and len(s[2]) == 1 and len(s[3]) == 1 and s[2][0][0] not in ("if", "while", "if_child_ok", "spawn_check") \
+                    and s[3][0][0] not in ("if", "while", "if_child_ok", "spawn_check"):
+                # single-statement branches are emitted WITHOUT braces: the macros must behave as statements
+                lines.append(p + "if %s" % c_cond(s[1]))
+                gen(s[2], ind + 1)
+                lines.append(p + "else")
+                gen(s[3], ind + 1)
             elif k == "if":
                 lines.append(p + "if %s {" % c_cond(s[1]))
                 gen(s[2], ind + 1)
@@ -188,9 +195,26 @@ def contexts(body):
     yield "loop_exit", [["while", ["lt", "a", 5], [["inc", "a"]] + body + [["exit_on", ["ge", "a", 3]], e1]], e2]
 
 
+def unbraced(K):
+    """a single macro as the unbraced then/else branch of an if/else (dangling-else hazards)"""
+    out = []
+    singles = [("yield", ["yield"]), ("wait", ["wait"]), ("wu", ["wait_until", ["tickge", "", 2]]), ("exit", ["exit"]), ("fail", ["fail"]),
+               ("exit_on_t", ["exit_on", ["tickge", "", 0]]), ("exit_on_f", ["exit_on", ["tickge", "", 9]]),
+               ("fail_on_t", ["fail_on", ["ge", "b", 0]]), ("fail_on_f", ["fail_on", ["ge", "b", 5]]),
+               ("spawn0", ["spawn", 0]), ("spawn2", ["spawn", 2]), ("call0", ["call", 0]), ("eff", ["eff", 4])]
+    for name, st in singles:
+        for v in (0, 1):
+            out.append({"name": "unbraced_then_%s_%d" % (name, v), "kids": K,
+                        "main": [["set", "a", v], ["if", ["eq", "a", 1], [st], [["eff", 5]]], ["eff", 6], ["yield"], ["eff", 7]]})
+            out.append({"name": "unbraced_else_%s_%d" % (name, v), "kids": K,
+                        "main": [["set", "a", v], ["if", ["eq", "a", 1], [["eff", 5]], [st]], ["eff", 6], ["yield"], ["eff", 7]]})
+    return out
+
+
 def systematic():
     progs = []
     K = kids_library()
+    progs += unbraced(K)
     for bn, body in blockers():
         for cn, main in contexts(body):
             progs.append({"name": "%s_%s" % (cn, bn), "main": main, "kids": K})
